@@ -118,6 +118,13 @@ Theorem C13_type_resolves_meaning :
 Proof. exact type_resolves_spec. Qed.
 Print Assumptions C13_type_resolves_meaning.
 
+(* and for EVERY type name whatsoever (not only the declared ones) valid() selects some
+   validator: it answers or raises NotValid, never KeyError / AttributeError *)
+Theorem C13_valid_never_keyerror :
+  forall prim t v, valid prim validator_keys t v = ok \/ valid prim validator_keys t v = Err NOT_VALID.
+Proof. intros prim t v. exact (valid_no_keyerror prim validator_keys t v string_key). Qed.
+Print Assumptions C13_valid_never_keyerror.
+
 (* the same for the base / list member of every c_value_type without enumeration *)
 Theorem C13_value_types_resolve :
   forall r vt, In r actual_schema -> k_vtype r = Some vt -> v_maxlen vt = None -> v_enum vt = None ->
